@@ -238,11 +238,13 @@ PROPS["C05"] = {
                   "X05: the public setters are modelled statement by statement (special-name dispatch, key normalisation, cookie and trailer parsing); for EVERY "
                   "program of calls with arbitrary byte arguments: the head is one start line plus the fields of expectedFields(program) (api_program_head_lines), "
                   "every field name is a fixed special name or a key some call passed (fields_only_from_calls), at most #calls + 7 fields, method and request URI "
-                  "come only from SetMethod/SetRequestURI, and the request line has exactly two SP and no CR/LF IF AND ONLY IF those arguments have no SP/CR/LF "
-                  "(request_line_single_exactly; _fails_at witnesses: known finding start-line-raw); AppendQuotedPath and the query-argument serialiser never "
-                  "write SP/CR/LF, the raw query string and PathOriginal do (request_target_partial); the Set-Cookie line is one line for every cookie.",
-    "level_note": "Trusted: Lean kernel, translator (tables, emission skeleton), harness state dump hook (read-only). The request line is written raw by hertz "
-                  "(known finding start-line-raw, patches/C05-start-line.diff); the response status line and the Date value are Go's (hypothesis NoCRLF). "
+                  "come only from SetMethod/SetRequestURI, and - since the repair /repo 910b0dd (appendRequestLinePart: SP, CR, LF of method and request target "
+                  "percent-encoded) - the request line has exactly two SP and no CR/LF for EVERY method and request-URI bytes (request_line_single, "
+                  "request_line_written; regression theorems request_line_single_repaired(_uri), request_target_repaired on the former witnesses; a part is "
+                  "written unchanged iff it has none of the three bytes), so request_head_lines / api_program_head_lines need no hypothesis on the request line; "
+                  "AppendQuotedPath and the query-argument serialiser never write SP/CR/LF (request_target_partial); the Set-Cookie line is one line for every cookie.",
+    "level_note": "Trusted: Lean kernel, translator (tables, emission skeleton), harness state dump hook (read-only). The request line was written raw by hertz until /repo 910b0dd "
+                  "(former finding start-line-raw; witnesses kept in corpus/C05/start-line-repaired.txt); the response status line and the Date value are Go's (hypothesis NoCRLF). "
                   "In op apitarget the flag parsedQueryArgs (no accessor) is derived by the harness from the script (QueryArgs() was the last of "
                   "{SetRequestURI, SetQueryString, QueryArgs()}).",
     "assumptions": ["the response status line (consts.StatusLine) is free of CR/LF"],
